@@ -3,7 +3,7 @@
    /repo/tlslite/utils/constanttime.py by the translator on every run (Gen/ConstantTime.v). *)
 From Coq Require Import ZArith List Bool.
 From TV Require Import Base.Prelude Gen.ConstantTime Spec.CbcCheck Proofs.CtOps
-                       Proofs.C12_Lemmas Proofs.C12_Check Proofs.C12_Sender Toy.ToyMac.
+                       Proofs.C12_Lemmas Proofs.C12_Check Proofs.C12_Sender Proofs.C12_Corrupt Toy.ToyMac.
 Import ListNotations.
 Open Scope Z_scope.
 
@@ -56,6 +56,54 @@ Theorem strip_correct :
     py_slice data None (Some (- (p + 1 + mac_ds mac))) =
       firstn (Z.to_nat (zlen data - p - 1 - mac_ds mac)) data.
 Proof. exact strip_correct_lem. Qed.
+
+(* The verdict on ANY body of the sender's shape payload ++ tag' ++ pad' ++ [p] (tag' of digest size,
+   pad' of p bytes): accepted iff the padding content is allowed and tag' is the MAC of the payload. *)
+Theorem shape_verdict :
+  forall (ver : Z * Z) (bs : Z) (mac : HMac) (seq : list Z) (ty : Z) (payload tagx padx : list Z) (p : Z),
+    zlen tagx = mac_ds mac -> zlen padx = p ->
+    well_formed ver bs mac seq ty (payload ++ tagx ++ padx ++ [p]) =
+      (if is_ssl3 ver then p <=? bs else forallb (fun x => x =? p) padx)
+      && list_eqb tagx (mac_fn mac (mac_acc mac ++ mac_header seq ty ver (zlen payload) ++ payload)).
+Proof. exact wf_shape. Qed.
+
+(* "nor accepts any record with a single wrong MAC or padding byte": any MAC field different from
+   the MAC of the payload (in particular one flipped byte) is rejected, in all four versions ... *)
+Theorem wrong_mac_rejected :
+  forall (ver : Z * Z) (bs : Z) (mac : HMac) (seq : list Z) (ty : Z) (payload tagx padx : list Z) (p : Z),
+    zlen tagx = mac_ds mac -> zlen padx = p ->
+    tagx <> mac_fn mac (mac_acc mac ++ mac_header seq ty ver (zlen payload) ++ payload) ->
+    well_formed ver bs mac seq ty (payload ++ tagx ++ padx ++ [p]) = false.
+Proof. exact wrong_mac_rejected_lem. Qed.
+
+(* ... in TLS 1.0-1.2 any padding byte that differs from the padding length is rejected, whatever
+   the MAC field holds ... *)
+Theorem wrong_pad_rejected :
+  forall (ver : Z * Z) (bs : Z) (mac : HMac) (seq : list Z) (ty : Z) (payload tagx padx : list Z) (p : Z),
+    is_ssl3 ver = false ->
+    zlen tagx = mac_ds mac -> zlen padx = p ->
+    (exists x, In x padx /\ x <> p) ->
+    well_formed ver bs mac seq ty (payload ++ tagx ++ padx ++ [p]) = false.
+Proof. exact wrong_pad_rejected_lem. Qed.
+
+(* ... SSLv3 padding longer than one block is rejected ... *)
+Theorem ssl3_long_pad_rejected :
+  forall (ver : Z * Z) (bs : Z) (mac : HMac) (seq : list Z) (ty : Z) (payload tagx padx : list Z) (p : Z),
+    is_ssl3 ver = true ->
+    zlen tagx = mac_ds mac -> zlen padx = p -> bs < p ->
+    well_formed ver bs mac seq ty (payload ++ tagx ++ padx ++ [p]) = false.
+Proof. exact ssl3_long_pad_rejected_lem. Qed.
+
+(* ... and a changed fragment under the honest MAC field is rejected unless the MAC function itself
+   collides on the two fragments (the only place where the strength of the MAC enters; stated as a
+   hypothesis on this pair, no axiom about HMAC). *)
+Theorem wrong_data_rejected :
+  forall (ver : Z * Z) (bs : Z) (mac : HMac) (seq : list Z) (ty : Z) (payload payload' padx : list Z) (p : Z),
+    let tag := mac_fn mac (mac_acc mac ++ mac_header seq ty ver (zlen payload) ++ payload) in
+    zlen tag = mac_ds mac -> zlen padx = p ->
+    mac_fn mac (mac_acc mac ++ mac_header seq ty ver (zlen payload') ++ payload') <> tag ->
+    well_formed ver bs mac seq ty (payload' ++ tag ++ padx ++ [p]) = false.
+Proof. exact wrong_data_rejected_lem. Qed.
 
 (* the hypotheses are satisfiable: the toy MAC used in the correspondence meets the oracle contract *)
 Example mac_contract_satisfiable : forall key m,
